@@ -168,11 +168,13 @@ mod replay {
         }
         /// called from the instrumented code (and from the handler)
         fn arrive(&self, name: &'static str, val: i64) {
-            // hook points of other properties (C11: "ex.*", "ctl.*") are not steps of this model: pass through
-            if !matches!(name.split('.').next(), Some("al" | "ap" | "co" | "ct" | "rm" | "sh")) {
+            // hook points of other properties (C11: "ex.*", "ctl.*") are not steps of this model: pass through.
+            // "hd.run" is this harness' own point inside the request handler.
+            if !matches!(name.split('.').next(), Some("al" | "ap" | "co" | "ct" | "rm" | "sh" | "hd")) {
                 return;
             }
             let tid = current_tid();
+            if std::env::var("KVH_C10_DEBUG").is_ok() { eprintln!("arrive {name} {val} {tid:?}"); }
             let mut g = self.inner.lock().unwrap();
             // role assignment by the first point a thread reaches
             let role = match name {
